@@ -1390,6 +1390,11 @@ class DiskRefsContainer(RefsContainer):
                 if orig_ref != old_ref:
                     return False
 
+            # Drop the packed entry first: once the loose file is gone any
+            # packed value would become visible again, so a reader (or a
+            # crash) between the two steps would see a stale value.
+            self._remove_packed_ref(name)
+
             # remove the reference file itself
             try:
                 found = os.path.lexists(filename)
@@ -1400,7 +1405,6 @@ class DiskRefsContainer(RefsContainer):
             if found:
                 os.remove(filename)
 
-            self._remove_packed_ref(name)
             self._log(
                 name,
                 old_ref,
